@@ -1,8 +1,8 @@
 /-
 C01 — GraphPigeonholePrinciple(G, functional, onto) on an arbitrary bipartite graph object.
 -/
-import Lemmas.FamGraphInv
-import Lemmas.FamPigeon
+import Lemmas.C01GraphInv
+import Lemmas.C01Pigeon
 import CnfgenModel.Fam.Php
 namespace Cnfgen.C01
 open Cnfgen Cnfgen.Fam
